@@ -96,3 +96,32 @@ def main(ctx):
                        monitor_all=True)
         recipe.account(ctx, 'conn-wide', 'Conn', tla(wide), fw.result())
     ctx.exhaustive = True
+    real_kernel(ctx)
+
+
+OBS_INV = ['InOrderIntact', 'AllDelivered', 'NothingInvented', 'CleanEnd', 'TornReported']
+
+
+def real_kernel(ctx):
+    """binding B: real pipes and socket pairs between two processes, judged by ConnObs.tla"""
+    from lib import monitor, sandbox
+    scale = sandbox.time_scale()
+    rc, data, log = sandbox.run_driver('harness.conn_main', [ctx.tier], timeout=400 * scale,
+                                       env={'VERIF_TIME_SCALE': str(scale)})
+    if rc != 0 or data is None:
+        raise RuntimeError('connection driver failed (rc=%s): %s' % (rc, log[-1500:]))
+    ctx.traces += len(data)
+    ctx.replay_steps += sum(len(d['results']) for d in data)
+    ctx.note('real_connection_scenarios', [{k: d[k] for k in ('kind', 'mode', 'n', 'kill_after', 'tail')}
+                                           for d in data])
+    _, verdicts = monitor.check('ConnObs', data, invariants=OBS_INV)
+    seen = set()
+    for v in verdicts:
+        d = data[v['trace']]
+        key = (v['name'], d['kind'], d['mode'], d['kill_after'])
+        if key in seen:
+            continue
+        seen.add(key)
+        ctx.violation('real %s connection (%s, sender killed after %d): %s falsified: %r' % (
+            d['kind'], d['mode'], d['kill_after'], v['name'], [r for r in d['results'] if r[1] != 'ok'] + [d['tail']]),
+            'observed:conn:%s:%s' % (v['name'], d['kind']), replay=d)
